@@ -471,22 +471,39 @@ Proof.
   induction 1 as [|[x k] t Hk _ IH]; [exact I|]. cbn [ends_ok]. destruct t as [|y t']; [exact I|]. split; [exact Hk|exact IH].
 Qed.
 
+(* what CompileWarrior does with the tokens the lexer hands it *)
+Definition after_lex (cfg : config) (toks : list token) : cres :=
+  if negb (counts_modelled toks None) then CUnmodelled else
+  match pass_loop cfg (S max_for_passes) toks with
+  | None => COutOfFuel
+  | Some None => CErr
+  | Some (Some toks') =>
+    match parse toks' with
+    | None => COutOfFuel
+    | Some None => CErr
+    | Some (Some (lines, meta)) => compile cfg lines meta
+    end
+  end.
+Lemma compile_warrior_after_lex cfg inp :
+  compile_warrior cfg inp = match lex_ascii inp with None => COutOfFuel | Some toks => after_lex cfg toks end.
+Proof. reflexivity. Qed.
+
+
 Section EquEnd2End.
 Variable spell : N -> text.
 Variable cfg : config.
 Notation cf := (mconf_of cfg).
 
-Theorem program2_tokens org (its : list Prog.item) es lead nm au code start inp rkN :
+Theorem program2_after_lex org (its : list Prog.item) es lead nm au code start rkN :
   validate cfg = true ->
   spell_ok spell (flat_map il_labels (instrs its) ++ map fst (equs its)) ->
   renders_doc2 spell org its es -> shape2_ok es -> Forall (fun xk => (1 <= snd xk)%nat) es ->
   ranked spell (equs its) rkN ->
   bodies_known cfg its ->
   meaning cf (mkProg its org None nm au []) = MOk code start ->
-  lex_ascii inp = Some (ldoc_toks lead es) ->
-  compile_warrior cfg inp = COk code start (dmeta (mkPM [] [] []) es).
+  after_lex cfg (ldoc_toks lead es) = COk code start (dmeta (mkPM [] [] []) es).
 Proof.
-  intros Hv Hsp Hrd Hsh Hk1 Hrk Hbod Hmean Hlex.
+  intros Hv Hsp Hrd Hsh Hk1 Hrk Hbod Hmean.
   set (ev := equs its) in *. set (ils := instrs its) in *. set (ls := lab_pairs 0 ils) in *.
   pose proof (Hsp' spell its Hsp) as Hs'. pose proof (lbs'_keys its) as Hkeys.
   pose proof (r2_plain spell org its es Hrd) as Hplain.
@@ -540,8 +557,22 @@ Proof.
     - intros id Hid. apply (Permutation.Permutation_in _ (Permutation.Permutation_sym Hperm)). apply (known_spelled spell cfg (lbs' its) Hs' id Hid).
     - intros r []. }
   destruct (parse_ldoc lead es Hok (ends_ok_all es Hk1) Hndp Hrefs) as [lines [Hparse Hess]].
-  unfold compile_warrior. rewrite Hlex, Hcm. cbn [negb]. rewrite Hpass, Hparse.
+  unfold after_lex. rewrite Hcm. cbn [negb]. rewrite Hpass, Hparse.
   apply (compile_program2 spell cfg org its es lines _ nm au code start rkN Hv Hrd (mkSpellOk spell _ Hpre Hlab Hinj Hnd Hword) Hrk Hess Hmean).
+Qed.
+
+Theorem program2_tokens org (its : list Prog.item) es lead nm au code start inp rkN :
+  validate cfg = true ->
+  spell_ok spell (flat_map il_labels (instrs its) ++ map fst (equs its)) ->
+  renders_doc2 spell org its es -> shape2_ok es -> Forall (fun xk => (1 <= snd xk)%nat) es ->
+  ranked spell (equs its) rkN ->
+  bodies_known cfg its ->
+  meaning cf (mkProg its org None nm au []) = MOk code start ->
+  lex_ascii inp = Some (ldoc_toks lead es) ->
+  compile_warrior cfg inp = COk code start (dmeta (mkPM [] [] []) es).
+Proof.
+  intros Hv Hsp Hrd Hsh Hk1 Hrk Hbod Hmean Hlex. rewrite compile_warrior_after_lex, Hlex.
+  apply (program2_after_lex org its es lead nm au code start rkN); assumption.
 Qed.
 
 (* the same for a text given by its lexemes, with any white space between them *)
@@ -561,3 +592,29 @@ Proof.
   rewrite (lex_items lexemes tail Ht Hne Hits). rewrite Htoks. reflexivity.
 Qed.
 End EquEnd2End.
+
+
+(* ---------- with FOR blocks: through the pass driver (C08Passes) ---------- *)
+(* a text with FOR blocks whose tokens unroll, block by block, to a document that renders a program with a meaning is
+   assembled to that meaning *)
+Theorem for_program_tokens spell cfg org (its : list Prog.item) es lead nm au code start inp toks k rkN :
+  validate cfg = true ->
+  spell_ok spell (flat_map il_labels (instrs its) ++ map fst (equs its)) ->
+  renders_doc2 spell org its es -> shape2_ok es -> Forall (fun xk => (1 <= snd xk)%nat) es ->
+  ranked spell (equs its) rkN ->
+  bodies_known cfg its ->
+  meaning (mconf_of cfg) (mkProg its org None nm au []) = MOk code start ->
+  lex_ascii inp = Some toks -> counts_modelled toks None = true ->
+  unrolls cfg k toks (ldoc_toks lead es) -> (k <= max_for_passes)%nat ->
+  compile_warrior cfg inp = COk code start (dmeta (mkPM [] [] []) es).
+Proof.
+  intros Hv Hsp Hrd Hsh Hk1 Hrk Hb Hmean Hlex Hcm Hun Hk.
+  pose proof (program2_after_lex spell cfg org its es lead nm au code start rkN Hv Hsp Hrd Hsh Hk1 Hrk Hb Hmean) as Hfin.
+  rewrite compile_warrior_after_lex, Hlex.
+  unfold after_lex in *. rewrite Hcm. cbn [negb].
+  rewrite (driver_unrolls cfg k toks _ Hun (S max_for_passes) ltac:(lia)).
+  destruct (negb (counts_modelled (ldoc_toks lead es) None)); [discriminate Hfin|].
+  assert (Hf : unrolls cfg 0 (ldoc_toks lead es) (ldoc_toks lead es)).
+  { clear - Hun. remember (ldoc_toks lead es) as fin. clear Heqfin. induction Hun as [pre e Hpre He Hs|]; [apply U_done; assumption|assumption]. }
+  rewrite (driver_unrolls cfg 0 _ _ Hf (S max_for_passes) ltac:(lia)) in Hfin. exact Hfin.
+Qed.
